@@ -204,7 +204,7 @@ Theorem C03_clock_sound_complete : forall B s d t, iv_ok B = true -> 0 <= d -> (
 Proof. exact adv_iff. Qed.
 
 (* without required breaks the replay that runs (`replay4`) IS Valid.replay_viol ++ Valid.xreplay_viols *)
-Theorem C03_no_required_breaks_is_replay_viol : forall P S, replay4 X0 P S = replay_viol P S ++ xreplay_viols P S.
+Theorem C03_no_required_breaks_is_replay_viol : forall P S, replay4 X0 XS0 P S = replay_viol P S ++ xreplay_viols P S.
 Proof. exact replay4_X0. Qed.
 
 Theorem C03_required_break_clock_examples :
@@ -215,7 +215,7 @@ Proof. exact ex_clock. Qed.
 (* non-vacuity: a service interrupted by a required break (10 .. 19 for 5 s of work around the break 12 .. 16; statistic break 4)
    and a break taken while driving (stop without location 4 .. 7, arrival 13 instead of 10) are replayed exactly *)
 Theorem C03_nonvacuous_required_break :
-  valid4 ex_Xq ex_P ex_Sq = [] /\ st_break (sl_stat ex_Sq) = 4 /\ valid4 ex_Xt ex_P ex_St = [] /\ st_break (sl_stat ex_St) = 3.
+  valid4 ex_Xq XS0 ex_P ex_Sq = [] /\ st_break (sl_stat ex_Sq) = 4 /\ valid4 ex_Xt XS0 ex_P ex_St = [] /\ st_break (sl_stat ex_St) = 3.
 Proof.
   split; [exact (proj1 ex_required_break)|]. split; [reflexivity|]. split; [exact (proj1 (proj2 ex_required_break))|reflexivity].
 Qed.
@@ -224,5 +224,5 @@ Qed.
    driving 20 + serving 5 + waiting 15 + break 5, cost 117; the document the writer produces reports waiting 20 (arrival to start,
    the break's 5 s once more) and cost 127: exactly [RStatWaiting 0; RStatCost 0], and 20 + 5 + 20 + 5 is not the duration *)
 Theorem C03_break_while_waiting_counted_twice_refuted :
-  valid4 ex_Xw ex_Pw ex_Sw = [] /\ valid4 ex_Xw ex_Pw ex_Sw_twice = [RStatWaiting 0; RStatCost 0] /\ 20 + 5 + 20 + 5 <> 45.
+  valid4 ex_Xw XS0 ex_Pw ex_Sw = [] /\ valid4 ex_Xw XS0 ex_Pw ex_Sw_twice = [RStatWaiting 0; RStatCost 0] /\ 20 + 5 + 20 + 5 <> 45.
 Proof. exact ex_required_break_waiting. Qed.
